@@ -110,7 +110,7 @@ def pick_target(r: random.Random, layout: list[list[int]], ri: int, oi: int) -> 
 
 
 def gen_layout(r: random.Random, n_routines: int, max_ops: int) -> list[list[int]]:
-    off = r.choice([0, 0, 1, r.randint(0, 50), r.randint(100, 5000)])
+    off = r.choice([0, 0, 1, r.randint(0, 50), r.randint(100, 5000), -r.randint(1, 30)])
     layout = []
     for _ in range(n_routines):
         n = 0 if r.random() < 0.22 else r.randint(1, max_ops)
